@@ -228,6 +228,14 @@ inline void set_current(const std::string& s) {
 	memcpy(c->text, s.data(), n); c->text[n] = 0; c->len = (uint32_t)n;
 }
 
+// Per-case watchdog inside a shard child: re-arm before every case; a case that does not finish in time terminates the
+// child with exit code 99 and the parent reports the child's current case ("did not terminate") when crashes are verdicts.
+inline void watchdog(unsigned seconds) {
+	static bool installed = false;
+	if (!installed) { struct sigaction sa; memset(&sa, 0, sizeof sa); sa.sa_handler = [](int) { _exit(99); }; sigaction(SIGALRM, &sa, nullptr); installed = true; }
+	alarm(seconds);
+}
+
 // Run fn(shard) for shard in [0,n) in forked children, at most `jobs` at a time.
 // crash_is_violation: a child that terminates abnormally yields a Violation whose replay is the
 // child's current case (otherwise it is a framework error: exit 2).
@@ -272,7 +280,7 @@ inline Result run_shards(const Args& a, int n, const std::function<Result(int)>&
 				if (WIFEXITED(st) && WEXITSTATUS(st) == 0 && !c.buf.empty()) total.merge(Result::from_json(Json::parse(c.buf)));
 				else {
 					std::string cur(c.cc->text, c.cc->len);
-					std::string how = WIFSIGNALED(st) ? ("signal " + std::to_string(WTERMSIG(st))) : ("exit " + std::to_string(WEXITSTATUS(st)));
+					std::string how = WIFSIGNALED(st) ? ("signal " + std::to_string(WTERMSIG(st))) : (WEXITSTATUS(st) == 99 ? std::string("watchdog: the case did not terminate in time") : ("exit " + std::to_string(WEXITSTATUS(st))));
 					if (crash_is_violation) {
 						Violation v; v.what = "abnormal termination of the case (" + how + ")";
 						v.replay = cur.empty() ? Json::obj() : Json::parse(cur);
@@ -328,7 +336,8 @@ inline int replay_exit(const Args& a, const std::string& path) {
 		execl(a.self.c_str(), a.self.c_str(), "--replay", path.c_str(), "--tier", a.tier.c_str(), (char*)nullptr);
 		_exit(127);
 	}
-	int st = 0; waitpid(pid, &st, 0);
+	int st = 0; double t0 = now();
+	for (;;) { pid_t r = waitpid(pid, &st, WNOHANG); if (r == pid) break; if (now() - t0 > 600) { kill(pid, SIGKILL); waitpid(pid, &st, 0); return 124; } usleep(20000); }
 	if (WIFSIGNALED(st)) return 128 + WTERMSIG(st);
 	return WEXITSTATUS(st);
 }
@@ -356,7 +365,7 @@ inline int finish(const Args& a, const Result& r, Evidence ev, bool confirm = tr
 		{ std::ofstream f(path); f << rp.dump() << "\n"; }
 		if (confirm) {
 			int rc = replay_exit(a, path);
-			bool repro = (rc == 1) || (crash_replays && rc >= 128);
+			bool repro = (rc == 1) || (crash_replays && (rc >= 128 || rc == 124 || rc == 99));   // 99 / 124: the replay did not terminate either
 			if (!repro) { fprintf(stderr, "vf: violation '%s' did not reproduce from %s (replay exit %d): framework error, not reported\n", v.what.c_str(), path.c_str(), rc); ++nflaky; continue; }
 		}
 		printf("VIOLATION property=%s replay=%s\n  %s\n", a.prop.c_str(), path.c_str(), v.what.c_str());
